@@ -90,9 +90,10 @@ def prec_queries(tier):
         qs.append(Query(name, 'C04_prec.cpp', entry, d, bounds=b, rec_bounds=rb, default_rec=2, stubs=stubs, cflags=PRIV, mem_gb=8, timeout=900, replay='none', extra_cbmc=['--object-bits', '11'], **kw))
     for k in range(1, kmax + 1):
         d = {'K': k, 'VB': 2}
-        b = {'pick_list|build.*|h_.*': k + 1, 'climb_.*|ambiguous': k + 1, 'evaluate': max(k, 2), 'arith': 10,
-             'Dispose|~Array|Array|operator\\+=': 3, '_ZN6Qentem11QExpressionD2Ev': 1}
-        rb = {'evaluate': k, 'climb_.*': k + 1, '~QExpression': 1, '.*Array.*': 2}
+        # destructors of evaluate()'s locals never own a sub-list: bound 1 (the unwinding assertions prove it)
+        b = {'_ZN6Qentem5ArrayINS_11QExpressionEED2Ev': 1, '_ZN6Qentem11QExpressionD2Ev': 1, 'pick_list|build.*|h_.*': k + 1, 'climb_.*': max(k, 2), 'ambiguous': k + 1,
+             'evaluate': max(k, 2), 'arith': 5}
+        rb = {'evaluate': k, 'climb_.*': k, '~QExpression': 1, '.*Array.*': 1}
         for entry, stub in (('h_tree', 'fn_tree'), ('h_doc', 'fn_arith'), ('h_fail', 'fn_fail')):
             if entry == 'h_fail' and k == 1: continue
             PQ('prec/%s/K%d' % (entry[2:], k), entry, d, {EVX: stub, GEV: 'fn_gev'}, b, rb)
